@@ -36,7 +36,9 @@ class C07(runner.Check):
 		"ops on a shared model, some ops carrying one fault, each compared with the "
 		"same op on a pristine copy. An evaluation is non-trivial when at least one "
 		"fault actually fired inside an op that had registered DeepLIFT hooks or "
-		"reached the model; distinct = distinct event-log digests.")
+		"reached the model; distinct = distinct event-log digests. A tenth of the models "
+		"carry a Softmax with the implicit (deprecated) dim on a 3-D activation, i.e. "
+		"behaviour stored in a plain attribute that no state_dict shows.")
 	assumptions = [
 		"faults are injected at the call-level seams the property names (validation, "
 		"reference generator, forward pass, back-propagation, func/shuffle_fn callables); "
